@@ -36,6 +36,7 @@ def renderVal : Val → String
   | .st fs => "{" ++ ",".intercalate (renderFs fs) ++ "}"
   | .prop o v => "prop(" ++ opName o ++ "," ++ renderVal v ++ ")"
   | .en n => "en(" ++ toHex n ++ ")"
+  | .tup vs => "(" ++ ",".intercalate (renderList vs) ++ ")"
 def renderList : List Val → List String
   | [] => []
   | v :: vs => renderVal v :: renderList vs
@@ -101,7 +102,19 @@ def parseTy : Nat → List Char → Option (Ty × List Char)
          | _ :: rest' =>
            some (.en ((splitOnChar ';' body).filter (fun v => !v.isEmpty) |>.map (fun v => bytesOf (String.ofList v))), rest')
          | [] => none)
+      | none =>
+      match stripPrefix "tup(" cs with
+      | some r => (parseTys f r).map (fun (ts, r) => (.tup ts, r))
       | none => none
+def parseTys : Nat → List Char → Option (List Ty × List Char)
+  | 0, _ => none
+  | f + 1, cs =>
+    match cs with
+    | ')' :: r => some ([], r)
+    | _ =>
+      (parseTy f cs).bind (fun (t, r) =>
+        let r := match r with | ';' :: r' => r' | _ => r
+        (parseTys f r).map (fun (ts, r) => (t :: ts, r)))
 def parseFields : Nat → List Char → Option (List (Bytes × Ty) × List Char)
   | 0, _ => none
   | f + 1, cs =>
@@ -193,14 +206,23 @@ def parseNode : Nat → List Char → Option (Node × List Char)
            (parseNode f r2).map (fun (b, r3) => (.hdr n b, r3)))
        | _ => none)
     | _ => none
-def parseFieldsD : Nat → List Char → Option (List (Bytes × Op × Node) × List Char)
+def parseFieldsD : Nat → List Char → Option (List (Key × Op × Node) × List Char)
   | 0, _ => none
   | f + 1, cs =>
     match cs with
     | ']' :: r => some ([], r)
     | _ =>
+      -- field := [+<ghosts>+][!][^]<keyhex>[*<trailing ghosts>*]~<op>~node   (! quoted key, ^ implicit `=`)
+      let (ghosts, cs) := match cs with
+        | '+' :: r => ((String.ofList (r.takeWhile Char.isDigit)).toNat?.getD 0, (r.dropWhile Char.isDigit).drop 1)
+        | _ => (0, cs)
+      let (quoted, cs) := match cs with | '!' :: r => (true, r) | _ => (false, cs)
+      let (noEq, cs) := match cs with | '^' :: r => (true, r) | _ => (false, cs)
       let key := cs.takeWhile isHexCh
-      match cs.dropWhile isHexCh with
+      let (trail, cs') := match cs.dropWhile isHexCh with
+        | '*' :: r => ((String.ofList (r.takeWhile Char.isDigit)).toNat?.getD 0, (r.dropWhile Char.isDigit).drop 1)
+        | r => (0, r)
+      match cs' with
       | '~' :: r =>
         let opn := r.takeWhile (· != '~')
         (match r.dropWhile (· != '~') with
@@ -208,7 +230,7 @@ def parseFieldsD : Nat → List Char → Option (List (Bytes × Op × Node) × L
            (parseHex (String.ofList key)).bind (fun k => (parseOp (String.ofList opn)).bind (fun o =>
              (parseNode f r2).bind (fun (v, r3) =>
                let r3 := match r3 with | ';' :: r' => r' | _ => r3
-               (parseFieldsD f r3).map (fun (fs, r4) => ((k, o, v) :: fs, r4)))))
+               (parseFieldsD f r3).map (fun (fs, r4) => ((⟨k, quoted, ghosts, noEq, trail⟩, o, v) :: fs, r4)))))
          | _ => none)
       | _ => none
 def parseNodes : Nat → List Char → Option (List Node × List Char)
